@@ -114,6 +114,9 @@ def body(chk):
     # normalizer (Normalize<Summarize<..>>, Libtest) whatever else holds the normalizer's output - Normalize is lossless
     from checks import c11
     c11.obligations(chk, 'C01', variants=['basic'])
+    # `@allow.skipped` on an Examples block reaches the rows expanded from it (the tags FailOnSkipped's predicate reads)
+    from checks import c16
+    c16.obligations(chk, 'C01')
 
 
 def confirm_hook_retry(chk, o):
